@@ -121,9 +121,18 @@ def main():  # noqa: C901, PLR0915
         target["digest"] = "corrupted"
     cases.append(c); exp.append(("digest of a repeated call altered", "FAIL", "same-term-different-result"))
     c = copy.deepcopy(base)
-    calls = [e for e in c["events"] if e["op"] != "create"]
+    calls = [e for e in c["events"] if e["op"] not in ("create", "fill")]
     calls[0]["params_fp_after"] = "x"
     cases.append(c); exp.append(("params fingerprint changed by a call", "FAIL", "params-mutated"))
+    c = copy.deepcopy(base)
+    calls = [e for e in c["events"] if e["op"] not in ("create", "fill")]
+    calls[-1]["held_fp_after"] = "x"
+    cases.append(c); exp.append(("a params object the user still holds changed by a later call", "FAIL", "held-params-mutated"))
+    c = copy.deepcopy(base)
+    held = [e for e in c["events"] if e.get("via") == "held"]
+    if held:
+        c["events"] = [e for e in c["events"] if e["op"] != "fill"]
+        cases.append(c); exp.append(("held params object passed without the user having filled it", "FAIL", "not-an-api-behaviour"))
     for (name, st, cl), got in zip(exp, verdicts("TraceApi", cases)):
         good &= expect(name, got, st, cl)
     # ---- negative control of the model checker: the repaired defect D2 in the specification
